@@ -218,36 +218,72 @@ def rule_R13_4(ctx):
     if not r.require_floor("grammar productions", len(ups), 100):
         return r
     d = g.by_lhs(MOD_MAIN)
-    # ParamList: `..` only as second-to-last symbol followed by Expr
-    for nt in ("ParamList",):
-        ps = d.get(nt, [])
-        if not ps:
-            r.anchor_missing("nonterminal %s" % nt)
-            continue
-        for syms, act in ps:
-            if '".."' in syms:
-                i = syms.index('".."')
-                good = (i == len(syms) - 2) and not g.is_terminal(syms[-1])
-                r.inst("%s = %s" % (nt, syms))
-                if good:
+    OPEN = ('"("', '"["', '"{"')
+    CLOSE = ('")"', '"]"', '"}"')
+    COLLECT = '".."'
+
+    def ends_with_comma(n, depth=0):
+        """Can nonterminal n derive a string ending in ","?"""
+        if depth > 4 or n not in d:
+            return False
+        for syms, act in d[n]:
+            if syms and (syms[-1] == '","' or (not g.is_terminal(syms[-1]) and syms[-1] != n
+                                              and ends_with_comma(syms[-1], depth + 1))):
+                return True
+        return False
+    # every nonterminal incl. the macro-generated ones
+    allp = {}
+    for lhs, syms, act in g.productions(MOD_MAIN):
+        if not lhs.startswith("__"):
+            allp.setdefault(lhs, []).append(syms)
+    d = {k: [(s_, None) for s_ in v] for k, v in allp.items()}
+    carriers = set()
+    n_sites = 0
+    for lhs, prods in allp.items():
+        if any('":"' in syms for syms in prods):
+            continue      # object property items: `..rest` is placed by the binder's own check
+        for syms in prods:
+            for i_, s_ in enumerate(syms):
+                if s_ != COLLECT or i_ + 1 >= len(syms) or g.is_terminal(syms[i_ + 1]):
+                    continue
+                prev = syms[i_ - 1] if i_ > 0 else None
+                prefix_pos = prev is None or prev == '","' or prev in OPEN \
+                    or (not g.is_terminal(prev) and ends_with_comma(prev))
+                if not prefix_pos:
+                    continue          # infix `a .. b` or postfix spread `x..`
+                n_sites += 1
+                rest = syms[i_ + 2:]
+                r.inst("%s = %s" % (lhs, " ".join(syms)))
+                if all(x == COLLECT for x in rest):
                     r.ok()
+                    carriers.add(lhs)
                 else:
-                    r.fail("grammar | %s collect not before last item: %s" % (nt, " ".join(syms)),
-                           "in %s a `..` collect marker is not directly before the last parameter" % nt)
-    # list patterns: ReverseExprList (items are in reverse): a leading `..`
-    # may only occur in the production for a single (last) item
-    ps = d.get("ReverseExprList", [])
-    if not ps:
-        r.anchor_missing("nonterminal ReverseExprList")
-    for syms, act in ps:
-        if syms and syms[0] == '".."':
-            rec = any(s == "ReverseExprList" for s in syms)
-            r.inst("ReverseExprList = %s" % syms)
-            if not rec and len(syms) >= 2:
-                r.ok()
-            else:
-                r.fail("grammar | list collect on non-last item: %s" % " ".join(syms),
-                       "a leading `..` (collect) is allowed on an item that is followed by more items")
+                    r.fail("grammar | %s collect not before last item: %s" % (lhs, " ".join(syms)),
+                           "in %s a `..` collect marker is followed by further symbols (%s): it is "
+                           "not on the last item" % (lhs, " ".join(rest)))
+    # a nonterminal that can end with a collected item must itself be last in
+    # every list that uses it: no "," may follow it
+    changed = True
+    while changed:
+        changed = False
+        for lhs, prods in allp.items():
+            for syms in prods:
+                for i_, s_ in enumerate(syms):
+                    if s_ not in carriers:
+                        continue
+                    rest = syms[i_ + 1:]
+                    if not rest or all(x == COLLECT for x in rest):
+                        if lhs not in carriers:
+                            carriers.add(lhs)
+                            changed = True
+                    elif rest[0] in CLOSE or rest[0] == '"stmt_end"':
+                        pass
+                    elif '","' in rest or any((not g.is_terminal(x)) and ends_with_comma(x) for x in rest):
+                        key = "grammar | list collect on non-last item: %s = %s" % (lhs, " ".join(syms))
+                        if not any(v.key.endswith(key) for v in r.violations):
+                            r.fail(key, "after %s (which can end with a collected `..item`) the "
+                                   "production %s continues with another list item" % (s_, lhs))
+    r.require_floor("productions with a prefix collect marker", n_sites, 2)
     return r
 
 
